@@ -339,6 +339,57 @@ func readerModels(it *Interp) {
 		st.mem[o] = map[string]Value{".data": sl, ".pos": it.constBV(0, 64)}
 		return Ptr{Obj: o}, true
 	}
+	// bytes.Buffer used as a reader over a slice
+	it.Models["bytes.NewBuffer"] = it.Models["bytes.NewReader"]
+	it.Models["(*bytes.Buffer).ReadByte"] = func(it *Interp, st *state, call *ssa.CallCommon, args []Value) (Value, bool) {
+		rp, ok := args[0].(Ptr)
+		if !ok {
+			return nil, false
+		}
+		data, ok1 := st.mem[rp.Obj][".data"].(SliceV)
+		pos, ok2 := it.concreteInt(st.mem[rp.Obj][".pos"])
+		if !ok1 || !ok2 {
+			return nil, false
+		}
+		if pos >= data.Len {
+			return TupleV{it.constBV(0, 8), ErrV{it.T.zero}}, true
+		}
+		b, ok := it.load(st, it.sliceElemPtr(data, pos), u8T).(BV)
+		if !ok {
+			return nil, false
+		}
+		st.mem[rp.Obj][".pos"] = it.constBV(uint64(pos+1), 64)
+		return TupleV{b, NilV{}}, true
+	}
+	it.Models["(*bytes.Buffer).Next"] = func(it *Interp, st *state, call *ssa.CallCommon, args []Value) (Value, bool) {
+		rp, ok := args[0].(Ptr)
+		if !ok {
+			return nil, false
+		}
+		data, ok1 := st.mem[rp.Obj][".data"].(SliceV)
+		pos, ok2 := it.concreteInt(st.mem[rp.Obj][".pos"])
+		n, ok3 := it.concreteInt(args[1])
+		if !ok1 || !ok2 || !ok3 || n < 0 {
+			return nil, false
+		}
+		if pos+n > data.Len {
+			n = data.Len - pos
+		}
+		st.mem[rp.Obj][".pos"] = it.constBV(uint64(pos+n), 64)
+		return SliceV{Obj: data.Obj, Path: data.Path, Lo: data.Lo + pos, Len: n}, true
+	}
+	it.Models["(*bytes.Buffer).Len"] = func(it *Interp, st *state, call *ssa.CallCommon, args []Value) (Value, bool) {
+		rp, ok := args[0].(Ptr)
+		if !ok {
+			return nil, false
+		}
+		data, ok1 := st.mem[rp.Obj][".data"].(SliceV)
+		pos, ok2 := it.concreteInt(st.mem[rp.Obj][".pos"])
+		if !ok1 || !ok2 {
+			return nil, false
+		}
+		return it.constBV(uint64(data.Len-pos), 64).signed(), true
+	}
 	it.Models["encoding/binary.Read"] = func(it *Interp, st *state, call *ssa.CallCommon, args []Value) (Value, bool) {
 		rp, ok := args[0].(Ptr)
 		if !ok {
